@@ -32,6 +32,27 @@ def handle (args : List String) : String :=
       let p := fun (s : String) => (s.splitOn ",").filterMap (·.toInt?)
       ",".intercalate ((Lerp.lerpArr Lerp.f32Ops lo hi (p as) (p bs) (Float32.ofBits t.toUInt32)).map toString)
     | _, _ => "bad-op"
+  | ["flerp", "f32", a, b, t] =>
+    match a.toNat?, b.toNat?, t.toNat? with
+    | some a, some b, some t =>
+      let r := Lerp.lerpF32 (Float32.ofBits a.toUInt32) (Float32.ofBits b.toUInt32) (Float32.ofBits t.toUInt32)
+      if r.isNaN then "nan" else toString r.toBits
+    | _, _, _ => "bad-op"
+  | ["flerp", "f64", a, b, t] =>
+    match a.toNat?, b.toNat?, t.toNat? with
+    | some a, some b, some t =>
+      let r := Lerp.lerpF64 (Float.ofBits a.toUInt64) (Float.ofBits b.toUInt64) (Float32.ofBits t.toUInt32)
+      if r.isNaN then "nan" else toString r.toBits
+    | _, _, _ => "bad-op"
+  | ["flerparr", a, b, t] =>
+    -- `[f32; N]`: pointwise
+    match t.toNat? with
+    | some t =>
+      let p := fun (s : String) => (s.splitOn ",").filterMap (·.toNat?)
+      ",".intercalate ((List.zip (p a) (p b)).map fun (x, y) =>
+        let r := Lerp.lerpF32 (Float32.ofBits x.toUInt32) (Float32.ofBits y.toUInt32) (Float32.ofBits t.toUInt32)
+        if r.isNaN then "nan" else toString r.toBits)
+    | none => "bad-op"
   | ["ease", name, t] =>
     match easeTable.lookup name, t.toNat? with
     | some f, some t => toString (f (Float32.ofBits t.toUInt32)).toBits
